@@ -222,6 +222,35 @@ def d2_data_order(chk, repo, v, r):
                 for c_, s_ in v.calls())
     chk.ob("io.ovf._to_ovf::permuted-array-is-written", feeds, "C09.D2",
            "the binary chunks must be taken from the permuted array", v.f)
+    # whatever is written (binary chunks, text rows) takes the field's values only through that permutation: an occurrence of
+    # self.array outside transpose((2, 1, 0, 3)) in a written value is written in the wrong cell order
+    written = []
+    for c_, s_ in v.calls():
+        if isinstance(c_.func, ast.Attribute) and c_.func.attr == "tobytes":
+            written.append((v.term(c_.func.value, at=s_), s_))
+        if ast.unparse(c_.func).endswith("DataFrame") and c_.args:
+            written.append((v.term(c_.args[0], at=s_), s_))
+    raw = v.spec("self.array").single_atom()
+
+    def unguarded(t, seen):
+        for a_ in t.atom_ids():
+            if a_ in seen:
+                continue
+            seen.add(a_)
+            if a_ == raw:
+                return True
+            hd_, ar_ = v.ctx.atoms[a_]
+            if hd_[0] == "call" and hd_[1] == ".transpose" and len(ar_) >= 2 and tuple_consts(v.ctx, ar_[1]) == (2, 1, 0, 3):
+                continue          # inside the permutation: fine
+            if hd_[0] in ("carried", "rec"):
+                continue
+            if any(unguarded(x, seen) for x in ar_):
+                return True
+        return False
+    bad_w = [s_ for t_, s_ in written if unguarded(t_, set())]
+    chk.ob("io.ovf._to_ovf::values-written-in-file-order-only", bool(written) and not bad_w, "C09.D2",
+           "every value written to the file must be taken from self.array.transpose((2, 1, 0, 3)) (z, y, x order, x fastest); "
+           "self.array used directly is in the wrong cell order", v.f, bad_w[0] if bad_w else None)
     ok = len(perms) == 1 and perms[0][0] == (2, 1, 0, 3) and v.eq(perms[0][1], v.spec("self.array"))
     chk.ob("io.ovf._to_ovf::data-permutation", ok, "C09.D2",
            f"writer permutation {perms[0][0] if perms else None}; expected self.array.transpose((2, 1, 0, 3))", v.f,
@@ -390,6 +419,14 @@ def d4_damaged(chk, repo, r):
     chk.rule("C09.D4", "damaged binary input: the refusal under `nbytes not in (4, 8) or test_value != check[nbytes]` dominates "
                        "the data read and the construction; the array reaches the constructor only through reshape((*reversed(n), "
                        "valuedim)), so a short data block cannot yield a field")
+    # a read into a buffer allocated beforehand has the right size whatever the file holds: its return value (how much was
+    # actually read) is the only witness of a truncated data block and must not be thrown away
+    for st in r.stmts():
+        if isinstance(st, ast.Expr) and isinstance(st.value, ast.Call) and isinstance(st.value.func, ast.Attribute) \
+                and st.value.func.attr in ("readinto", "readinto1", "recv_into"):
+            chk.ob("io.ovf._from_ovf::short-read-detected", False, "C09.D4",
+                   f"`{r.src(st)}`: the number of bytes actually read is discarded, so a data block that is shorter than the "
+                   "header promises still yields a field (of uninitialised memory)", r.f, st)
     reads = [s for c, s in r.calls() if ast.unparse(c.func) == "np.fromfile"]
     chk.require(len(reads) == 1, "_from_ovf: np.fromfile vanished")
     roles = _reader_roles(r)
